@@ -795,3 +795,7 @@ pub fn from_file(file_name: &str) -> Result<Config, Error> {
 	init_directories(&config)?;
 	Ok(config)
 }
+
+#[cfg(feature = "breard_r_acmed_verif")]
+#[path = "/verif/probe/config_probe.rs"]
+mod verif;
